@@ -23,6 +23,7 @@ def run(ctx: common.Ctx):
     probe_mapping_batch_refusals(ctx)
     probe_extended_slice_refusals(ctx)
     probe_unconsumable_operands(ctx)
+    probe_duplicate_in_batch(ctx)
     probe_spent_left_operand(ctx)
     corr_arith_operands(ctx)
 
@@ -312,6 +313,52 @@ def probe_ancestor_into_descendant(ctx: common.Ctx):
         else:
             ctx.monitor_failure(c03.SIG_REUSE, f'{text!r}: an enclosing expression was accepted as its own descendant\'s child',
                                 {'text': text})
+
+
+def probe_duplicate_in_batch(ctx: common.Ctx):
+    """Directed: "no node or token ever appears in two places" - the SAME free token model object listed twice in one
+    batch (slice assignment, extended slice, slice through a value view, extend) must be refused, and refused before
+    anything is written: document text, token identities, raw lists and views are what they were."""
+    from autobean_refactor import models
+    from harness import gen_docs
+    text = ('2000-01-01 open Assets:Foo  USD, EUR,GBP\n'
+            '2000-01-02 document Assets:Foo "foo.pdf"  #aaa  ^bbb  #ccc ^ddd #eee\n'
+            '2000-01-03 custom "budget" Assets:Foo "monthly" 10.00 USD Assets:Bar\n')
+    mk = {
+        'cur': lambda: models.Currency.from_value('XXX'),
+        'tag': lambda: models.Tag.from_value('dup'),
+        'acc': lambda: models.Account.from_value('Assets:Dup'),
+    }
+    plans = []
+    for sl in (slice(0, 2), slice(1, 3), slice(0, 0), slice(None, None, 2), slice(2, 0, -1), slice(1, 1)):
+        plans += [(0, 'raw_currencies', 'cur', sl), (1, 'raw_tags_links', 'tag', sl), (2, 'raw_values', 'acc', sl)]
+    for di, attr, kind, sl in plans:
+        for fresh_first in (False, True):
+            f = gen_docs.parse_ok(text, True)
+            d = f.raw_directives[di]
+            xs = getattr(d, attr)
+            t = mk[kind]()
+            n = len(range(*sl.indices(len(xs)))) if sl.step not in (None, 1) else None
+            batch = [t, t] if not fresh_first else [mk[kind](), t, t]
+            if n is not None:
+                batch = (batch * 3)[:n] if n >= 2 else None
+                if batch is None or len({id(x) for x in batch}) == len(batch):
+                    continue
+            snap = lambda: (gen_docs.print_model(f), [id(x) for x in f.token_store], [id(x) for x in xs], treewalk_dump(f))
+            before = snap()
+            ctx.count('duplicate_in_batch_probes')
+            w = {'text': text, 'call': f'directives[{di}].{attr}[{sl.start}:{sl.stop}:{sl.step}] = batch with the same free {kind} token twice'
+                                       + (' behind a fresh one' if fresh_first else '')}
+            try:
+                xs[sl] = batch
+            except Exception as x:
+                after = snap()
+                if after != before:
+                    what = [nm for nm, a, b in zip(('printed text', 'token identities', 'the raw list', 'tree'), after, before) if a != b]
+                    ctx.monitor_failure(c03.SIG_ATOMIC, f'{w["call"]} raised {type(x).__name__} ({x}) after changing {", ".join(what)}: '
+                                        f'the document prints {after[0]!r}', w)
+            else:
+                ctx.monitor_failure(c03.SIG_REUSE, f'{w["call"]} was accepted: one token object is now listed twice', w)
 
 
 def probe_unconsumable_operands(ctx: common.Ctx):
